@@ -228,6 +228,79 @@ func appendNote(notes []string, n string) []string {
 	return notes
 }
 
+// breaks one reference inside a router of the generated flows (what flow validation must refuse at load: the engine
+// and its model rely on a router only ever naming exits of its own node); returns what was broken, "" if nothing could be
+func malformRouter(r *Rng, ga *genAssets) string {
+	type cand struct {
+		f *genFlow
+		n *genNode
+	}
+	var cands []cand
+	for _, f := range ga.Flows {
+		for _, n := range f.Nodes {
+			if n.Router != nil {
+				cands = append(cands, cand{f, n})
+			}
+		}
+	}
+	if len(cands) == 0 {
+		return ""
+	}
+	cd := cands[r.Intn(len(cands))]
+	cats, _ := cd.n.Router["categories"].([]map[string]any)
+	if len(cats) == 0 {
+		return ""
+	}
+	foreignExit := func() string {
+		var others []string
+		for _, n := range cd.f.Nodes {
+			if n != cd.n {
+				for _, e := range n.Exits {
+					others = append(others, e.UUID)
+				}
+			}
+		}
+		if len(others) > 0 && r.Chance(70) {
+			return others[r.Intn(len(others))]
+		}
+		return fmt.Sprintf("%08x-1111-4000-8000-%012x", 0xdead0000+r.Intn(1000), r.Intn(1000))
+	}
+	unknown := fmt.Sprintf("%08x-2222-4000-8000-%012x", 0xbeef0000+r.Intn(1000), r.Intn(1000))
+	var timeoutCat string
+	if w, ok := cd.n.Router["wait"].(map[string]any); ok {
+		if t, ok := w["timeout"].(map[string]any); ok {
+			timeoutCat, _ = t["category_uuid"].(string)
+		}
+	}
+	switch x := r.Intn(100); {
+	case x < 35 && timeoutCat != "":
+		for _, c := range cats {
+			if c["uuid"] == timeoutCat {
+				c["exit_uuid"] = foreignExit()
+				return "timeout-category-exit-foreign"
+			}
+		}
+	case x < 50 && timeoutCat != "":
+		cd.n.Router["wait"].(map[string]any)["timeout"].(map[string]any)["category_uuid"] = unknown
+		return "timeout-category-unknown"
+	case x < 75:
+		cats[r.Intn(len(cats))]["exit_uuid"] = foreignExit()
+		return "category-exit-foreign"
+	case x < 88:
+		if cases, ok := cd.n.Router["cases"].([]map[string]any); ok && len(cases) > 0 {
+			cases[r.Intn(len(cases))]["category_uuid"] = unknown
+			return "case-category-unknown"
+		}
+	default:
+		if _, ok := cd.n.Router["default_category_uuid"]; ok {
+			cd.n.Router["default_category_uuid"] = unknown
+			return "default-category-unknown"
+		}
+	}
+	cats[r.Intn(len(cats))]["exit_uuid"] = foreignExit()
+	return "category-exit-foreign"
+}
+
 func runC01(c *Ctx) {
 	r := c.Rng
 	n := c.N(1500, 60000)
@@ -285,5 +358,33 @@ func runC01(c *Ctx) {
 				c.Sample(map[string]any{"model_assets": ec.GA.ModelSpec(nil), "trigger": ec.Trigger, "resumes": ec.Resumes, "max_steps": ec.MaxSteps, "after_start": call.Post.enc()})
 			}
 		})
+	}
+	if replayCase != nil {
+		return
+	}
+	// malformed stream: flows with one broken reference inside a router. Either the flow is refused when it is loaded (no call
+	// then returns a session) or, if it runs, the invariant must hold all the same. No model here: it assumes validated flows.
+	for i := 0; i < c.N(400, 12000); i++ {
+		ec := genEngCase(r, false)
+		kind := malformRouter(r, ec.GA)
+		if kind == "" {
+			continue
+		}
+		ncall, ran := 0, false
+		runEngCase(c, ec, "C01", func(er *engRun, call *engCall) {
+			ncall++
+			if call.Post == nil || call.Class != "ok" {
+				return
+			}
+			ran = true
+			fails := checkSessionInv(call.Post, ec.GA, false)
+			fails = append(fails, checkEventInv(call)...)
+			for _, f := range fails {
+				d := ec.describe()
+				d["malformed"], d["failed_at_call"], d["call"], d["session_after"] = kind, ncall, call.Call, call.Post.enc()
+				c.Fail("monitor", "M-inv-"+f.clause, f.sig+":malformed-flow", f.what+" (flow with a broken router reference that was not refused at load: "+kind+")", d)
+			}
+		})
+		c.Count("malformed:" + kind + map[bool]string{true: ":ran", false: ":no-session"}[ran])
 	}
 }
